@@ -53,7 +53,12 @@ ReplFrom(w, p, from, to) ==
   IF p > Len(w) THEN <<>>
   ELSE IF HasAt(w, p, from) THEN to \o ReplFrom(w, p + Len(from), from, to)
        ELSE <<w[p]>> \o ReplFrom(w, p + 1, from, to)
-Flush(obuf) == ReplFrom(UnescFrom(obuf, 1), 1, LitHttps, LitHttp)
+(* a word's first rune keeps its case in the non-normalizing mode: "Https://" loses its "s" too, so that
+   Match(Normalize(in)) reads the scheme Match(in) reads (fix: normalizeToken) *)
+LitHttpsCap == <<"H">> \o Tail(LitHttps)
+Flush(obuf) == LET u == UnescFrom(obuf, 1)
+                   v == IF HasAt(u, 1, LitHttpsCap) THEN <<"H">> \o Tail(LitHttp) \o SubSeq(u, Len(LitHttps) + 1, Len(u)) ELSE u
+               IN ReplFrom(v, 1, LitHttps, LitHttp)
 
 ------------------------------------------------------------------------------
 (* header() and cleanupToken() *)
@@ -101,7 +106,10 @@ IsNotice(rawline) == LET l == LowerSeq(rawline) IN Notice1(l) \/ Notice2(l) \/ N
 
 ------------------------------------------------------------------------------
 (* the rune loop *)
-S0 == [obuf |-> <<>>, lb |-> <<>>, line |-> 1, dE |-> FALSE, dW |-> FALSE, toks |-> <<>>, notes |-> <<>>]
+(* dE: a hyphen before a line break was stripped and the word is waiting for its second half; dW: the second half is
+   being read; dl: line breaks swallowed by the hyphens of the pending word.  They are settled when the word is
+   flushed, by a blank or by the next line break (fix: the old code paid one break, and only at a blank). *)
+S0 == [obuf |-> <<>>, lb |-> <<>>, line |-> 1, dE |-> FALSE, dW |-> FALSE, dl |-> 0, toks |-> <<>>, notes |-> <<>>]
 
 (* appendToDoc / stringifyLineBuf for one line buffer *)
 EmitLine(s, lb, line, norm) ==
@@ -113,11 +121,12 @@ EmitLine(s, lb, line, norm) ==
 Step(s, c, norm) ==
   IF c = NL THEN
      IF s.obuf # <<>> /\ Last(s.obuf) = "-"
-     THEN [s EXCEPT !.obuf = Front(@), !.dE = TRUE]               \* hyphen before the break: strip, defer, line NOT advanced
+     THEN [s EXCEPT !.obuf = Front(@), !.dE = TRUE, !.dl = @ + 1] \* hyphen before the break: strip, defer, line NOT advanced
      ELSE LET lb == IF s.obuf # <<>> THEN Append(s.lb, Flush(s.obuf)) ELSE s.lb
               s1 == IF lb # <<>> THEN EmitLine([s EXCEPT !.lb = <<>>, !.obuf = <<>>], lb, s.line, norm) ELSE s
-              s2 == IF norm THEN s1 ELSE [s1 EXCEPT !.toks = Append(@, [w |-> EOLW, l |-> s.line])]
-          IN [s2 EXCEPT !.line = @ + 1]                            \* dE / dW are not reset here (as built)
+              ln == s.line + s.dl                                  \* the pending word ended with its line: settle
+              s2 == IF norm THEN s1 ELSE [s1 EXCEPT !.toks = Append(@, [w |-> EOLW, l |-> ln])]
+          IN [s2 EXCEPT !.line = ln + 1, !.dE = FALSE, !.dW = FALSE, !.dl = 0]
   ELSE IF s.obuf = <<>> THEN
      IF IsStart(c) THEN [s EXCEPT !.obuf = <<IF norm THEN Lower(c) ELSE c>>] ELSE s
   ELSE IF IsSpace(c) THEN
@@ -125,7 +134,7 @@ Step(s, c, norm) ==
      ELSE LET lb == Append(s.lb, Flush(s.obuf)) IN
           IF s.dW
           THEN [EmitLine([s EXCEPT !.lb = <<>>, !.obuf = <<>>], lb, s.line, norm)
-                  EXCEPT !.dW = FALSE, !.line = s.line + 1]        \* joined word credited to the earlier line
+                  EXCEPT !.dW = FALSE, !.line = s.line + s.dl, !.dl = 0]   \* joined word credited to the line it began on
           ELSE [s EXCEPT !.lb = lb, !.obuf = <<>>]
   ELSE LET s1 == IF s.dE THEN [s EXCEPT !.dE = FALSE, !.dW = TRUE] ELSE s
        IN [s1 EXCEPT !.obuf = @ \o MapLower(c)]
@@ -139,17 +148,19 @@ Fold(s, in, i, norm) == IF i > Len(in) THEN s ELSE Fold(Step(s, in[i], norm), in
 Tok(in, norm) == Finish(Fold(S0, in, 1, norm), norm)
 
 ------------------------------------------------------------------------------
-(* Classifier.Normalize: renderer over the tokens of the non-normalizing mode (as built) *)
-RECURSIVE RenderFrom(_, _, _)
-RenderFrom(ts, i, prev) ==
+(* Classifier.Normalize: renderer over the tokens of the non-normalizing mode: one EOL per line advanced (the
+   EOL pseudo-tokens only carry line numbers; a hyphen-ended notice line leaves none -- fix), a blank between
+   words of one line *)
+NLs(n) == [i \in 1..n |-> NL]
+RECURSIVE RenderFrom(_, _, _, _)
+RenderFrom(ts, i, line, first) ==
   IF i > Len(ts) THEN <<>>
-  ELSE LET t == ts[i] IN
-       (IF t.l = prev + 1 THEN <<NL>> ELSE <<>>)
-       \o (IF t.w # EOLW THEN (IF t.l = prev THEN <<" ">> ELSE <<>>) \o t.w ELSE <<>>)
-       \o RenderFrom(ts, i + 1, t.l)
-Render(ts) == IF ts = <<>> THEN <<>>
-              ELSE IF Len(ts) = 1 THEN ts[1].w
-              ELSE (IF ts[1].w # EOLW THEN ts[1].w ELSE <<>>) \o RenderFrom(ts, 2, 1)   \* a leading EOL token is not a word (fix dc72049)
+  ELSE LET t   == ts[i]
+           gap == IF t.l > line THEN t.l - line ELSE 0
+           f1  == gap > 0 \/ first
+       IN NLs(gap) \o (IF t.w = EOLW THEN RenderFrom(ts, i + 1, line + gap, f1)
+                       ELSE (IF f1 THEN <<>> ELSE <<" ">>) \o t.w \o RenderFrom(ts, i + 1, line + gap, FALSE))
+Render(ts) == RenderFrom(ts, 1, 1, TRUE)
 Normalize(in) == Render(Tok(in, FALSE).toks)
 
 Words(ts) == [i \in 1..Len(ts) |-> ts[i].w]
